@@ -184,6 +184,10 @@ def run_cases(ck: Check, n: int):
         grid = make_grids(rng)
         data, style = dyadic_field(rng, grid)
         field = ScalarField(grid, data)
+        if np.all(data == np.rint(data)) and np.abs(data).max() < 2**40 and rng.random() < 0.5:
+            # the same intensities stored as INTEGERS (camera counts): the documented thresholds do not depend on the dtype
+            field = ScalarField(grid, data.astype(np.int64), dtype=np.int64)
+            ck.count("integer_dtype" + (".256_levels_or_more" if data.max() - data.min() >= 256 else ""))
         flat = [Fraction(float(x)) for x in data.flat]
         case = {"grid": repr(grid), "style": style, "data": data.tolist()}
         sig = {"grid": type(grid).__name__}
@@ -202,7 +206,7 @@ def run_cases(ck: Check, n: int):
                 ck.count(f"raises.{res[1]}")
                 continue  # exceptions are C09's subject; both sides of every comparison below would raise alike
             if rule == "otsu":
-                thr_impl = threshold_otsu(data)
+                thr_impl = threshold_otsu(field.data)
                 reqs.append("c18 otsu " + " ".join(q(x) for x in data.flat))
                 expect.append(("otsu", case, thr_impl, data, mask, sig))
                 continue
